@@ -254,11 +254,11 @@ theorem Q.lt_zero_iff (x : Q) : Q.lt Q.zero x = true ↔ 0 < x.eval := by
     have hd : (0 : ℝ) < (x.den : ℝ) := by have := Q.den_pos x; positivity
     have h1 : (0 : ℝ) < (x.n : ℝ) := by
       by_contra hle
-      push_neg at hle
+      rw [not_lt] at hle
       have := div_nonpos_of_nonpos_of_nonneg hle hd.le
       linarith
     have h2 : 0 < x.n := by exact_mod_cast h1
-    simp only [Q.lt, decide_eq_true_eq, Q.zero, Q.den]
+    simp only [Q.lt, Q.zero, Q.den]
     simpa using h2
 
 theorem qsum_eval (l : List Q) : (qsum l).eval = (l.map Q.eval).sum := by
@@ -289,6 +289,13 @@ def xQ (c : Cfg) (p : Ins) : Q :=
   | 0 => qsum ((samePaths c p).map (vQ c))
   | 1 => Q.mul (vQ c p) (Q.ofNat (samePaths c p).length)
   | _ => Q.one
+
+theorem samePaths_io {c : Cfg} {p q : Ins} (hq : q ∈ samePaths c p) : q.io = p.io := by
+  unfold samePaths at hq
+  simpa using (List.mem_filter.mp hq).2
+
+theorem samePaths_congr {c : Cfg} {p q : Ins} (h : q.io = p.io) : samePaths c q = samePaths c p := by
+  unfold samePaths; rw [h]
 
 theorem alpha_eq (c : Cfg) (p : Ins) : alpha c p =
     Q.mul (Q.mul (if Q.lt Q.zero (xQ c p) then Q.div (a0Q c p) (xQ c p) else a0Q c p)
